@@ -14,6 +14,8 @@ frame they receive. After every op the loop is run to quiescence, then
 
 Ops (JSON lists), names are small integers (0 = the logged-in user, 1..4 remote peers, 5.. other root names):
   ["session"]            connect the server connection (if closed), SessionInitializedEvent, start server reader
+  ["session", "blocked"] the same, but the new server socket does not drain from the start (monitor only: the Network's
+                         own session listener is suspended in its send first, the manager's comes after it)
   ["lost"]               the server closes its socket -> server connection CLOSED -> SessionDestroyedEvent
                          (what client.py:367-373 does is done by a listener registered after the manager's)
   ["pp", [n, ...]]       server sends PotentialParents; every entry is reachable, so one outgoing distributed
@@ -174,29 +176,17 @@ async def _scenario(loop, case: dict):
                      'upnp': {'enabled': False}})
         bus = EventBus()
         net = Network(settings, bus)
-        dn = DistributedNetwork(settings, bus, net)
-        state = {'session': None}
-
-        # what SoulSeekClient._on_connection_state_changed does (client.py:367-373)
-        async def client_like(event: ConnectionStateChangedEvent):
-            if isinstance(event.connection, ServerConnection) and event.state == ConnectionState.CLOSED:
-                if state['session'] is not None:
-                    ev = SessionDestroyedEvent(state['session'])
-                    state['session'] = None
-                    await bus.emit(ev)
-        w.keep.append(client_like)
-        bus.register(ConnectionStateChangedEvent, client_like)
-
         # ---- probe: what the DistributedNetwork is handed, in the order in which it is handed it.
-        # Plain functions registered with priority 0: `EventBus.emit` calls them right before the manager's own
-        # listener for the same event (priority 100) and they add no suspension point. They keep the monitor's
+        # Plain functions registered (default priority) after the Network's own listeners and before the manager is
+        # constructed: `EventBus.emit` calls listeners of equal priority in registration order, so they run right
+        # before the manager's listener for the same event — also when an earlier listener (the Network advertising
+        # its ports at session start) was suspended in a send — and they add no suspension point. They keep the monitor's
         # own record of (a) the names the server proposed as potential parents and (b) the child admission limits
         # that follow from the own-user statistics handled so far (`_ghost_stats`), and note for every incoming
         # distributed connection the limits in force and the children present when the manager is told of it.
         from aioslsk import constants as _k
         from aioslsk.events import PeerInitializedEvent, MessageReceivedEvent
-        ghost = {'session': False, 'ms': None, 'ratio': None, 'accept': bool(dn._accept_children),
-                 'max': int(dn._max_children), 'defined': True, 'proposed': [],
+        ghost = {'session': False, 'ms': None, 'ratio': None, 'accept': True, 'max': 0, 'defined': False, 'proposed': [],
                  'dms': int(_k.DEFAULT_PARENT_MIN_SPEED), 'dratio': int(_k.DEFAULT_PARENT_SPEED_RATIO)}
         probe_log: list = []
 
@@ -249,11 +239,25 @@ async def _scenario(loop, case: dict):
         def probe_sess_off(event: SessionDestroyedEvent):
             ghost['session'] = False
         w.keep += [probe_message, probe_init, probe_state, probe_sess_on, probe_sess_off]
-        bus.register(MessageReceivedEvent, probe_message, priority=0)
-        bus.register(PeerInitializedEvent, probe_init, priority=0)
-        bus.register(ConnectionStateChangedEvent, probe_state, priority=0)
-        bus.register(SessionInitializedEvent, probe_sess_on, priority=0)
-        bus.register(SessionDestroyedEvent, probe_sess_off, priority=0)
+        bus.register(MessageReceivedEvent, probe_message)
+        bus.register(PeerInitializedEvent, probe_init)
+        bus.register(ConnectionStateChangedEvent, probe_state)
+        bus.register(SessionInitializedEvent, probe_sess_on)
+        bus.register(SessionDestroyedEvent, probe_sess_off)
+        dn = DistributedNetwork(settings, bus, net)
+        ghost.update(accept=bool(dn._accept_children), max=int(dn._max_children), defined=True)   # initial limits
+        state = {'session': None}
+
+        # what SoulSeekClient._on_connection_state_changed does (client.py:367-373)
+        async def client_like(event: ConnectionStateChangedEvent):
+            if isinstance(event.connection, ServerConnection) and event.state == ConnectionState.CLOSED:
+                if state['session'] is not None:
+                    ev = SessionDestroyedEvent(state['session'])
+                    state['session'] = None
+                    await bus.emit(ev)
+        w.keep.append(client_like)
+        bus.register(ConnectionStateChangedEvent, client_like)
+
 
         # outgoing distributed connections: one endpoint per peer name
         def make_out_handler(n):
@@ -399,7 +403,14 @@ async def _scenario(loop, case: dict):
                     return 'already'
                 if net.server_connection.state != ConnectionState.CONNECTED:
                     sess_mark['idx'] = len(server.received)
+                    n0 = len(server.sessions)
                     await net.connect_server()
+                    for _ in range(20):                       # (the simulated server has accepted the connection)
+                        if len(server.sessions) > n0:
+                            break
+                        await asyncio.sleep(0)
+                if op[1:] == ['blocked'] and server_up():
+                    gate_on('server', server.sessions[-1][1].peer)     # congested from the first write on
                 sess = Session(user=User(name=uname(ME)), ip_address='1.2.3.4', greeting='',
                                client_version=157, minor_version=100)
                 state['session'] = sess
@@ -728,8 +739,10 @@ def _monitor(case: dict, trace: list) -> list[Violation]:
 RATIOS = [0, 1, 5, 10, 20, 30, 50, 50, 100]
 MINSPEEDS = [0, 1, 1, 2, 10]
 SPEEDS = [0, 1023, 1024, 1025, 2047, 2048, 5119, 5120, 6144, 10240, 20480, 51200, 1048576]
+# (speeds used by the limit families: whole numbers of child slots for the default ratio 50 and for ratios 10 / 100)
+_SLOT_SPEEDS = [u * k for u in (1024, 5120, 10240) for k in range(0, 5)]
 for _r in RATIOS:
-    for _s in SPEEDS:
+    for _s in SPEEDS + _SLOT_SPEEDS:
         if _r:
             assert int(_s / ((_r / 10) * 1024)) == _s * 10 // (_r * 1024), (_r, _s)   # float == exact on this grid
 LEVELS = [0, 0, 1, 1, 2, 3, 7]
@@ -853,6 +866,25 @@ def _gen_case(rng: random.Random, kind: Optional[str] = None) -> dict:
         for _ in range(5):
             do(['pp', [rng.choice(others) for _ in range(4)]])
         do(['in', first])
+    elif kind == 'burst' and rng.random() < 0.35:
+        # two candidates become complete (or the parent goes and a candidate becomes complete) in the same step
+        others = [r for r in roots if r != ME]
+        if rng.random() < 0.5:
+            do(['in', rng.choice(peers)])
+        a, b = rng.sample(peers, 2)
+        ac = nconn
+        do(['pp', [a, b]])
+        first = rng.choice(['root', 'level'])
+        for c, n in ((ac, a), (ac + 1, b)):
+            do(['root', c, rng.choice([r for r in others if r != n] or others)] if first == 'root'
+               else ['level', c, rng.choice([1, 2, 3])])
+        fin = [(['level', c, rng.choice([1, 2, 3])] if first == 'root' else ['root', c, rng.choice(others)])
+               for c in (ac, ac + 1)]
+        if rng.random() < 0.3:
+            rng.shuffle(fin)
+        if rng.random() < 0.3:
+            fin.insert(rng.randrange(3), rng.choice([['in', rng.choice(peers)], ['close', ac], ['stats', ME, 5120]]))
+        do(['burst', fin])
     elif kind == 'burst':
         do(rng.choice([['pp', rng.sample(peers, 2)], ['in', rng.choice(peers)]]))
         sub = []
@@ -1017,6 +1049,11 @@ def _gen_case(rng: random.Random, kind: Optional[str] = None) -> dict:
                 st['parent'] = None
                 return [['reset']]
             if which == 'session':
+                if not strict and rng.random() < 0.5:
+                    # (monitor only: the Network's own session listener, which advertises the listening ports, is
+                    # suspended first; the manager is handed the session when that send returns)
+                    st['sblocked'] = True
+                    return [['lost'], ['session', 'blocked']]
                 return [['lost'], ['session']]
             return [['level', conn(), rng.choice(LEVELS)]]
 
@@ -1051,7 +1088,7 @@ def _gen_case(rng: random.Random, kind: Optional[str] = None) -> dict:
             do(['session'])
         if kind == 'sgate':
             variant = rng.choice(['limit-off', 'limit-lower', 'limit-lower', 'limit-raise', 'set-parent', 'reannounce',
-                                  'unset', 'unset', 'reset', 'ratio', 'two-handlers', 'random'])
+                                  'unset', 'unset', 'reset', 'ratio', 'two-handlers', 'random', 'session-init'])
             if variant.startswith('limit'):
                 k = rng.choice([0, 1, 1, 2])
                 ratio = rng.choice([None, None, 10, 100])
@@ -1098,6 +1135,14 @@ def _gen_case(rng: random.Random, kind: Optional[str] = None) -> dict:
                 if variant == 'unset' and st['cand'] is not None and rng.random() < 0.7:
                     for o in position_change('new-parent'):        # a new parent while the old one's handler hangs
                         do(o)
+            elif variant == 'session-init':
+                strict = False
+                if rng.random() < 0.6:
+                    candidate(rng.random() < 0.7)
+                add_kids(rng.choice([1, 2]))
+                for o in [['lost'], ['session', 'blocked']]:
+                    do(o)
+                st['sblocked'] = True
             elif variant == 'ratio':
                 do(['minspeed', rng.choice(MINSPEEDS)])
                 add_kids(rng.choice([0, 1]))
@@ -1159,6 +1204,8 @@ def _gen_case(rng: random.Random, kind: Optional[str] = None) -> dict:
                 do(o)
             for o in rest:
                 do(o)
+            if st['sblocked'] and ['srelease'] not in post:
+                post.append(['srelease'])
             rng.shuffle(post)
             for o in post:
                 do(o)
@@ -1222,7 +1269,8 @@ PRIMS = ('sblock', 'srelease', 'cblock', 'crelease', 'arm')
 def _has_burst(case) -> bool:
     """monitor-only cases: burst / gate (the model has no composite ops), and cases with held-back sockets that
     are not `strict` (events are issued to sources that are inside a suspended handler)"""
-    return any(op[0] in ('burst', 'gate') or (op[0] in PRIMS and not case.get('strict')) for op in case['ops'])
+    return any(op[0] in ('burst', 'gate') or (op[0] in PRIMS and not case.get('strict')) or op[1:] == ['blocked']
+               for op in case['ops'])
 
 
 def _eval_case(case):
